@@ -135,7 +135,7 @@ Definition as_bytes_stmt (v : cbor) : res bytes :=
 Definition tpm_name_hash (O : oracles) (pub_area_raw : bytes) (name_alg : string) : res bytes :=
   match str_assoc tpm_alg_cose_map name_alg with
   | Some a => Ok (hash_by_alg O pub_area_raw (Some a))
-  | None => Err (Py KeyError)
+  | None => IRR
   end.
 
 Definition san_lookup (attrs : list (pystr * pystr)) (oid : string) : pystr :=
@@ -198,7 +198,7 @@ Definition verify_tpm (O : oracles) (now : Z) (st : att_stmt) (auth_data cdj cre
            let* yb := as_bytes y in
            need (bytes_eqb (pa_unique pa) (xb ++ yb)) ;;;
            match str_assoc tpm_curve_cose_map crv with
-           | None => Err (Py KeyError)
+           | None => IRR
            | Some c => need (cbor_eq_int kcrv c)
            end
        | _ => IRR
